@@ -744,12 +744,16 @@ class ServiceInfo(RecordUpdateListener):
         """
         cache = zc.cache
         original_server_key = self.server_key
-        cached_srv_record = cache.get_by_details(self._name, _TYPE_SRV, _CLASS_IN)
-        if cached_srv_record:
-            self._process_record_threadsafe(zc, cached_srv_record, now)
-        cached_txt_record = cache.get_by_details(self._name, _TYPE_TXT, _CLASS_IN)
-        if cached_txt_record:
-            self._process_record_threadsafe(zc, cached_txt_record, now)
+        for type_ in (_TYPE_SRV, _TYPE_TXT):
+            # The most recently seen record that is still valid: a record that
+            # was flushed or ran out a moment ago, and has not been purged yet,
+            # must not hide a valid one that was added to the cache before it
+            newest = None
+            for record in cache.get_all_by_details(self._name, type_, _CLASS_IN):
+                if not record.is_expired(now) and (newest is None or record.created >= newest.created):
+                    newest = record
+            if newest is not None:
+                self._process_record_threadsafe(zc, newest, now)
         if original_server_key == self.server_key:
             # If there is a srv which changes the server_key,
             # A and AAAA will already be loaded from the cache
